@@ -1175,8 +1175,9 @@ impl<'de, 'e> de::Deserializer<'de> for YamlDeserializer<'de, 'e> {
                     return visitor.visit_unit();
                 }
                 let is_plain = matches!(style, ScalarStyle::Plain);
-                // Treat all YAML null-like scalars (null, ~, empty) as null when typeless.
-                if scalar_is_nullish(value, style) {
+                // Treat all YAML null-like scalars (null, ~, empty) as null when typeless
+                // (`!!str null` is the string, not a null).
+                if scalar_is_nullish(value, style) && tag != &SfTag::String {
                     let _ = self.ev.next()?; // consume
                     return visitor.visit_unit();
                 }
@@ -1654,10 +1655,13 @@ impl<'de, 'e> de::Deserializer<'de> for YamlDeserializer<'de, 'e> {
                 visitor.visit_none()
             }
 
-            // YAML null forms as scalars → None
+            // YAML null forms as scalars → None (`!!str null` is the string, not a null)
             Some(Ev::Scalar {
-                value: s, style, ..
-            }) if scalar_is_nullish_for_option(s, style) => {
+                value: s,
+                style,
+                tag,
+                ..
+            }) if scalar_is_nullish_for_option(s, style) && *tag != SfTag::String => {
                 let _ = self.ev.next()?; // consume the scalar
                 visitor.visit_none()
             }
@@ -1682,8 +1686,11 @@ impl<'de, 'e> de::Deserializer<'de> for YamlDeserializer<'de, 'e> {
             // Accept YAML null forms or absence as unit
             None => visitor.visit_unit(),
             Some(Ev::Scalar {
-                value: s, style, ..
-            }) if scalar_is_nullish(s, style) => {
+                value: s,
+                style,
+                tag,
+                ..
+            }) if scalar_is_nullish(s, style) && *tag != SfTag::String => {
                 let _ = self.ev.next()?; // consume the scalar
                 visitor.visit_unit()
             }
